@@ -385,8 +385,14 @@ func c14restart(minDelay time.Duration, bound int) *explore.Scenario {
 	return sc
 }
 
-func c14twoRouters(d1, d2 time.Duration, n, bound int) *explore.Scenario {
+func c14twoRouters(d1, d2 time.Duration, n, bound int, rootJitter ...time.Duration) *explore.Scenario {
 	sc := &explore.Scenario{Name: fmt.Sprintf("routers lan minDelay=%v -> root minDelay=%v n=%d", d1, d2, n), Bound: bound}
+	var jitter time.Duration
+	if len(rootJitter) > 0 {
+		// the parent router jitters and the datagrams are written back to back: the child forwards them in one pass
+		jitter = rootJitter[0]
+		sc.Name += fmt.Sprintf(" root jitter=%v, written back to back", jitter)
+	}
 	sc.Cfg.Horizon = 30 * time.Second
 	sc.Cfg.RandMenu = func(k int64) []int64 { return []int64{0} }
 	sc.Make = func() (func(), func(*zzvsched.Exec) (string, *explore.Violation)) {
@@ -394,7 +400,7 @@ func c14twoRouters(d1, d2 time.Duration, n, bound int) *explore.Scenario {
 		var sentAt []time.Duration
 		wrote := 0
 		body := func() {
-			root, err := vnet.NewRouter(&vnet.RouterConfig{CIDR: "1.2.3.0/24", MinDelay: d2, LoggerFactory: logging.NewDefaultLoggerFactory()})
+			root, err := vnet.NewRouter(&vnet.RouterConfig{CIDR: "1.2.3.0/24", MinDelay: d2, MaxJitter: jitter, LoggerFactory: logging.NewDefaultLoggerFactory()})
 			if err != nil {
 				panic(err)
 			}
@@ -417,7 +423,7 @@ func c14twoRouters(d1, d2 time.Duration, n, bound int) *explore.Scenario {
 			}
 			dst := &net.UDPAddr{IP: net.ParseIP("1.2.3.9"), Port: 2000}
 			for i := 0; i < n; i++ {
-				if i > 0 {
+				if i > 0 && jitter == 0 {
 					zzvsched.Sleep(d1 / 2)
 				}
 				sentAt = append(sentAt, zzvsched.Elapsed())
@@ -474,6 +480,7 @@ func init() {
 			// a downstream NIC that takes longer per chunk than the spacing of the arrivals
 			out = append(out, c14router(time.Millisecond, 0, 3, 1, 2*time.Microsecond), c14router(20*time.Millisecond, 0, 3, 1, 30*time.Millisecond))
 			out = append(out, c14twoRouters(time.Millisecond, 20*time.Millisecond, 2, 1), c14twoRouters(10*time.Millisecond, time.Millisecond, 2, 1))
+			out = append(out, c14twoRouters(time.Millisecond, time.Millisecond, 3, 1, time.Millisecond), c14twoRouters(0, 0, 2, 2, time.Millisecond))
 			out = append(out, c14restart(0, 1), c14restart(time.Millisecond, 1))
 			// several arrival paths at once into an idle filter
 			out = append(out, c14filterConc(0, 2, 1, 2), c14filterConc(500*time.Microsecond, 2, 1, 2), c14filterConc(500*time.Microsecond, 2, 2, 1))
